@@ -110,6 +110,21 @@ func modeJSON(c *Ctx) {
 			if errs := jv.Validate(dv, ts.Schema); len(errs) > 0 {
 				c.Viol("schema-nonconformant", "encoded JSON does not validate against its schema ["+ts.Name+"]: "+stripPath(errs[0]), in, "valid for schema", map[string]any{"json": string(bs), "errors": errs})
 			}
+			if c.Kin != nil && i%4 == 0 && strings.HasPrefix(ts.Name, "schema ") {
+				kerr := c.Kin.ValidateComponent(strings.TrimPrefix(ts.Name, "schema "), bs)
+				mine := len(jv.Validate(dv, ts.Schema)) == 0
+				switch {
+				case kerr == nil && mine:
+					c.Stat("second_opinion_agree_valid", 1)
+				case kerr != nil && !mine:
+					c.Stat("second_opinion_agree_invalid", 1)
+				case kerr != nil:
+					c.Stat("second_opinion_only_kin_rejects", 1)
+					c.Note("kin-openapi rejects, jsv accepts [" + ts.Name + "]: " + trunc(string(bs), 120) + ": " + trunc(kerr.Error(), 160))
+				default:
+					c.Stat("second_opinion_only_mine_rejects", 1)
+				}
+			}
 			var und []string
 			jv.UndeclaredKeys(dv, ts.Schema, "$", &und, 0)
 			if len(und) > 0 {
